@@ -42,7 +42,7 @@ def report_trace_result(rep, res, prop_keys):
         what = "trace reaches a state violating %s (case %s, line %s)" % (res["violated"], d["case"], d["line"])
     else:
         key = "trace:rejected:%s" % ev.get("e")
-        what = "recorded execution is not a behaviour of %s: no action accepts event %%s (case %%s, line %%s)" % ("CycleOps.tla/TraceOps.tla (operator level)" if res.get("level") == "operators" else "Solver.tla") % (
+        what = "recorded execution is not a behaviour of %s: no action accepts event %%s (case %%s, line %%s)" % ("TraceSem.tla (operator level: the recorded instructions, interpreted, do not satisfy the property evaluated at this marker)" if res.get("level") == "operators" else "Solver.tla") % (
             d["rejected_event"], d["case"], d["line"])
     rep.violation(key, what + " context=" + json.dumps(d["context"])[:1500],
                   replay={"trace": res["trace_path"], "cases": res["cases_path"], "line": d["line"], "case": d["case"]})
